@@ -23,7 +23,7 @@ def make_jobs(tier, seed, build):
     nmax = 3 if tier == "quick" else 4
     for gname in GRAMMARS:
         g = CORPUS[gname]
-        for shape in tok.all_shapes_by_words(nmax, g.decl):
+        for shape in tok.all_shapes_by_words(nmax, g.decl, full_upto=3):
             if len(shape) >= 4 and "word" not in shape:
                 continue  # without a plain word no command can be entered: covered by the smaller sizes
             jobs.append({"id": "%s:%s" % (gname, ",".join(shape)), "grammar": gname, "shape": shape, "fs": "none"})
